@@ -100,7 +100,7 @@ bool tol_primal(const LP& lp, const std::vector<Q>& x, const std::vector<Q>* sla
     if (lp.rhs[i].finite() && a > lp.rhs[i].v + tl + ft * qabs(lp.rhs[i].v)) { setwhy(why, S("Ax>rhs", i)); return false; }
     if (slack) {
       if ((int)slack->size() != lp.nrows()) { setwhy(why, "slack dimension"); return false; }
-      if (qabs((*slack)[i] - a) > tl) { setwhy(why, S("slack!=Ax", i)); return false; }
+      if (qabs((*slack)[i] - a) > tl) { setwhy(why, S("slack!=Ax", i)); return false; /*SLACK*/ }
     }
   }
   return true;
